@@ -54,7 +54,7 @@ def parse_line(line):
     case = []
     seen_kv = False
     for t in toks:
-        if "=" in t and re.match(r"^[a-z]+=", t):
+        if "=" in t and re.match(r"^[a-z][a-z0-9_]*=", t):
             k, v = t.split("=", 1)
             kv[k] = v
             seen_kv = True
